@@ -9,28 +9,28 @@ namespace Code
 /-- `marshal(render ts, pv, off, lendian, [])` produces exactly the bytes of the spec encoder (alignment
 table of the specification) for the spec values `vs` that the Python values denote, reports their
 number, and leaves the descriptors met, in wire order, in the descriptor list. -/
-theorem marshal_eq_spec (le : Bool) (ts : List Ty) (pv : PyVal) (items : List PyVal) (vs : List Val)
+theorem marshal_eq_spec (A : AlignTable) (hA : PadOK A) (hpos : A.Pos) (le : Bool) (ts : List Ty) (pv : PyVal) (items : List PyVal) (vs : List Val)
     (lall : List PyVal) (k' off : Nat) (bs : Bytes) (fuel : Nat)
     (hitems : topItems pv = .ok items) (hrep : RepFields lall vs true ts items 0 k')
-    (henc : Spec.encodeAll Spec.alignTable (endianOf le) ts vs off = some bs) (hfuel : depthAll vs ≤ fuel) :
+    (henc : Spec.encodeAll A (endianOf le) ts vs off = some bs) (hfuel : depthAll vs ≤ fuel) :
     marshal fuel (renderAll ts) pv off le (some []) = .ok (bs.length, bs, some (lall.take k')) := by
   unfold marshal marshalTop
   unfold Spec.encodeAll at henc
-  have h := marshalSeq_spec lall le vs true ts items 0 k' off bs fuel hrep henc hfuel
+  have h := marshalSeq_spec A hA hpos lall le vs true ts items 0 k' off bs fuel hrep henc hfuel
   simp only [fdsArg, if_true, List.take_zero] at h
   simp only [hitems, lazyPieces_renderAll, h]
   simp
 
 /-- `unmarshal(render ts, pre ++ bytes ++ suf, off, lendian, fds)` on a spec-conformant encoding returns
 the encoded values and the number of bytes of the encoding. -/
-theorem unmarshal_eq_spec (le : Bool) (fds : Fds) (ts : List Ty) (vs : List Val) (off : Nat)
+theorem unmarshal_eq_spec (A : AlignTable) (hA : PadOK A) (hpos : A.Pos) (le : Bool) (fds : Fds) (ts : List Ty) (vs : List Val) (off : Nat)
     (bs pre suf : Bytes) (values : List PyVal) (fuel : Nat)
-    (hts : allWF ts = true) (henc : Spec.encodeAll Spec.alignTable (endianOf le) ts vs off = some bs)
+    (hts : allWF ts = true) (henc : Spec.encodeAll A (endianOf le) ts vs off = some bs)
     (hpre : pre.length = off) (hval : fromSpecFields fds vs ts = some values) (hfuel : depthAll vs ≤ fuel) :
     unmarshal fuel (renderAll ts) (pre ++ bs ++ suf) off le fds = .ok (bs.length, values) := by
   unfold unmarshal unmarshalTop
   unfold Spec.encodeAll at henc
-  have h := unmarshalSeq_spec le fds (pre ++ bs ++ suf) vs ts pre bs suf off values fuel hts henc
+  have h := unmarshalSeq_spec A hA hpos le fds (pre ++ bs ++ suf) vs ts pre bs suf off values fuel hts henc
     (by simp) hpre hval hfuel
   simp only [lazyPieces_renderAll, h]
   simp
